@@ -30,7 +30,7 @@ func splitRun(s string) (out string) {
 	return "OK " + strings.Join(parts, " ")
 }
 
-var splitSoup = []string{";", "'a;b'", "\"x\"", "`i;`", "--;\n", "/*;*/", "#;\n", "a", "1", " ", "\n", "//c", "/*", "'"}
+var splitSoup = []string{";", "'a;b'", "\"x\"", "`i;`", "--;\n", "/*;*/", "#;\n", "a", "1", " ", "\n", "//c", "/*", "'", "/**;**/", "*/", "r'\\';'"}
 
 func splitInputs(tier string, r *rng, each func(string)) {
 	maxTok := 4
